@@ -883,7 +883,9 @@ class Frame:
             if last is not None and last[0] == norm(e.slice):
                 return last[1]
             if base.inner is DEEPV:
-                base.inner = Cont(True, DEEPV, why=base.why)
+                # an element of a deep-fresh container of unknown shape: no
+                # statement about its class
+                base.inner = Cont(True, DEEPV, why=base.why, cname="<elem>")
             return base.inner
         if isinstance(base, Tup):
             if isinstance(e.slice, ast.Constant) and isinstance(
